@@ -244,6 +244,7 @@ def run(res: Results, idx: Index, tier: str) -> None:
             ok = any("trip_count" in str_consts_in(e) for e in exprs)
             res.add("R-C06d", "OK" if ok else "VIOLATION", f"{LAX}fori_loop.py:{call.lineno}", key, "trip count derives from params['trip_count']" if ok else f"the Loop trip count `{src(elts[0])}` does not derive from the trip_count parameter", flow.qualname)
     rule_e(res, idx)
+    rule_f(res, idx)
     # scan
     for mname in ("_lower_without_scan_inputs", "_lower_with_scan_inputs"):
         f = sc.methods.get(mname)
@@ -392,3 +393,31 @@ def rule_e(res: Results, idx: Index) -> None:
             res.ok("R-C06e", f"{rel}:{good_add.lineno}", key, "iteration + lower is computed on the lower != 0 branch and is what the body's index variable is bound to", body_fn.qualname)
         else:
             res.violation("R-C06e", f"{rel}:{good_add.lineno}", key, "the offset `iteration + lower` is not on every lower != 0 path to the binding of the body's index variable (or is not the bound value)", body_fn.qualname)
+
+
+# ---------------------------------------------------------------------------------------------- R-C06f
+def rule_f(res: Results, idx: Index) -> None:
+    """while_loop body graph: the continuation condition for the next iteration has to be the cond jaxpr evaluated on the
+    state the body *outputs* (for a vmapped loop: the masked / frozen state), i.e. on the same list that is appended to
+    the body graph's outputs — not on intermediate candidates."""
+    res.rule("R-C06f", "the while_loop body evaluates the next condition on the state values it outputs", floor=1)
+    rel = f"{LAX}while_loop.py"
+    m = idx.module(rel)
+    f = m.funcs.get("_build_loop_body_graph")
+    if f is None:
+        raise AnalysisError("while_loop._build_loop_body_graph not found")
+    du = defuse(f.node)
+    ext = [c for c in walk_no_nested(f.node) if isinstance(c, ast.Call) and isinstance(c.func, ast.Attribute) and c.func.attr == "extend" and (dotted(c.func.value) or "").endswith("builder.outputs") and c.args and isinstance(c.args[0], ast.Name)]
+    zips = [c for c in walk_no_nested(f.node) if isinstance(c, ast.Call) and (call_name(c) or "") == "zip" and len(c.args) == 2 and (dotted(c.args[0]) or "").endswith("cond_jaxpr.invars") and isinstance(c.args[1], ast.Name)]
+    key = f"{rel}::_build_loop_body_graph::condition-on-output-state"
+    if not ext or not zips:
+        res.unresolved("R-C06f", f"{rel}:{f.node.lineno}", key, "state output list or cond input binding not recognised", f.qualname)
+        return
+    state_lists = {c.args[0].id for c in ext}
+    cond_list = zips[0].args[1].id
+    vals = [v for v in du.values(cond_list) if v is not None]
+    used = set().union(*[names_in(v) for v in vals]) if vals else set()
+    if used & state_lists:
+        res.ok("R-C06f", f"{rel}:{zips[0].lineno}", key, f"`{cond_list}` is built from {sorted(used & state_lists)}, the list appended to the body outputs", f.qualname)
+    else:
+        res.violation("R-C06f", f"{rel}:{zips[0].lineno}", key, f"the cond jaxpr is evaluated on `{cond_list}` = {'; '.join(src(v, 50) for v in vals)}, which does not contain the state the body outputs ({sorted(state_lists)}): for a vmapped loop the condition is computed on un-masked candidates, so finished examples can switch back on", f.qualname)
